@@ -1442,7 +1442,11 @@ func NewPointFromBytes(b []byte) (Point, error) {
 				return nil, fmt.Errorf("unable to unmarshal field %s: %s", string(iter.FieldKey()), err)
 			}
 		case String:
-			// Skip since this won't return an error
+			// The value is the text between two double quotes; StringValue
+			// slices them off and panics on anything shorter.
+			if v := p.it.valueBuf; len(v) < 2 || v[0] != '"' || v[len(v)-1] != '"' {
+				return nil, fmt.Errorf("unable to unmarshal field %s: string value is not quoted", string(iter.FieldKey()))
+			}
 		case Boolean:
 			_, err := iter.BooleanValue()
 			if err != nil {
